@@ -364,6 +364,17 @@ func V6Helpers(m dhcpv6.DHCPv6) []Named {
 			return s
 		}},
 		Named{"netboot.ConversationToNetconf", func() string { v, e := netboot.ConversationToNetconf([]dhcpv6.DHCPv6{m}); return r2(v, e) }},
+		// ... as the last message of an exchange whose ADVERTISE (a canned one, built afresh for every call) carries the boot
+		// file options: what the extractor returns is one thing, what it leaves of the messages it was shown another
+		Named{"netboot.ConversationToNetconf(advertise, this)", func() string {
+			adv, _ := dhcpv6.NewMessage()
+			adv.MessageType = dhcpv6.MessageTypeAdvertise
+			adv.AddOption(dhcpv6.OptBootFileURL("http://boot.example/netboot.efi"))
+			adv.AddOption(dhcpv6.OptBootFileParam("console=ttyS0", "quiet"))
+			adv.AddOption(&dhcpv6.OptIANA{IaId: [4]byte{1, 2, 3, 4}, Options: dhcpv6.IdentityOptions{Options: dhcpv6.Options{&dhcpv6.OptIAAddress{IPv6Addr: net.ParseIP("2001:db8::42"), PreferredLifetime: 100 * time.Second, ValidLifetime: 200 * time.Second}}}})
+			v, e := netboot.ConversationToNetconf([]dhcpv6.DHCPv6{adv, m})
+			return r2(v, e)
+		}},
 		Named{"ToBytes+redecode", func() string {
 			q, e := dhcpv6.FromBytes(m.ToBytes())
 			if e != nil {
